@@ -45,5 +45,20 @@ claim("C09",
       "Decides that unknown-outcome slots are queued (errors.Is) before commit, the compaction clamp below the oldest queued revision, shape and reporting of the repair write, that the queue head survives a failed read, the TiKV adapter's classification of the engine commit error, and that clients get a nil error only after success or a definite failure. Convergence after faults on the repair write itself is not decided.",
       STATIC_NOTE, "DESIGN.md §3 C09")
 
-for pid in ["C03","C07","C10","C11","C12","C13","C14","C15","C16","C17","C19"]:
+claim("C11",
+      "sibling cross-checking of the three storage adapters and the metrics wrapper: error-class table per conditional op, compare-before-write, Commit structure, lock hand-over, iterator bound checks, forwarding, partition clamp",
+      "Decides structural facts every adapter must share: conditional ops report only nil / failed condition / engine errors and compare before they write; Commit is all-or-nothing by structure (one engine commit, none in a loop, op error returns first, discard on error; memkv holds its lock from BeginBatchWrite to Commit and every batch in the program is committed on all paths); every iterator key is checked against the end bound; the wrapper forwards once with parameters in order; Get returns the not-found sentinel itself; partitions are clamped. The behavioural contract over all operation sequences and the engines' own transactions are not decided.",
+      STATIC_NOTE, "DESIGN.md §3 C11")
+
+claim("C12",
+      "C11 sibling tables + dispatch-completeness and feature-flag who-may-call rules",
+      "Decides the points where engine differences can leak to clients: identical condition-failure classes across adapters, not-found identity, wrapper transparency, partition clamp, the backend dispatching only on error classes of the adapter table, and the TTL feature flag being consulted only by the scanner's expiry code. Equality of whole transcripts across engines is not decided.",
+      STATIC_NOTE, "DESIGN.md §3 C12")
+
+claim("C19",
+      "static lockset (guarded-by) analysis: inferred guard table per mutex-owning type, lock contexts with dominance / deferred unlock / conditional locking / held-on-entry / lock hand-over, slice-window escape, container-element access, frozen confinement table for mutex-less types",
+      "Decides for the repository's own shared state that every field written after construction is accessed with its guard held (exclusively for writes), that no window into a guarded array escapes its critical section, that skip-list / list elements are dereferenced only under the owner's lock, and that post-construction writes in mutex-less types are atomic or listed as confined with a reason. Absence of all races in all schedules (dependencies, byte slices, channel-based happens-before) is the race detector's job and is not decided.",
+      STATIC_NOTE, "DESIGN.md §3 C19")
+
+for pid in ["C03","C07","C10","C13","C14","C15","C16","C17"]:
     na(pid, "static rules designed in DESIGN.md §3 but the check is not built yet; not claimed until it is")
